@@ -24,7 +24,7 @@ def gen_book(rng, lad, idx, dyadic, depth=3):
 def gen_market(rng, mnum, t0, opts):
     dyadic = opts["dyadic"]
     lad = LADDER if dyadic else DEC_LADDER
-    nrun = rng.randint(2, 3)
+    nrun = rng.randint(2, opts.get("max_runners", 3))
     n = rng.randint(opts.get("min_updates", 5), opts.get("max_updates", 12))
     runners = [{"id": 1 + i, "hc": 0, "idx": rng.randrange(2, len(lad) - 3), "trd": {}, "af": rng.choice([10.0, 20.0, 30.0, 2.0, 45.5]),
                 "status": "ACTIVE"} for i in range(nrun)]
@@ -114,6 +114,9 @@ def gen_scenario(rng, **opts):
         mopts = dict(opts)
         mopts["type"] = rng.choice(["WIN", "WIN", "PLACE", "OTHER"])
         m, tend = gen_market(rng, 101 + i, t0 + (0 if opts.get("event_processing") else i * 100_000), mopts)
+        if opts.get("p_two_winners") and rng.random() < opts["p_two_winners"] and len(m["updates"][0]["runners"]) >= 3 \
+                and not any(r["hc"] for r in m["updates"][0]["runners"]):
+            m["type"], m["winners"] = "PLACE", 2      # two places are paid: worst cases range over pairs of winners
         if opts.get("p_each_way") and rng.random() < opts["p_each_way"] and not any(r["hc"] for r in m["updates"][0]["runners"]):
             # each-way market: divisor in the definition, one beaten runner is PLACED at the close
             m["type"], m["ew"] = "EACH_WAY", rng.choice([4.0, 5.0, 2.0])
